@@ -81,7 +81,20 @@ fn main() {
     match r {
         Ok(code) => std::process::exit(code),
         Err(e) => {
-            eprintln!("MACHINERY: the harness itself panicked: {} ({})", panic_msg(&e), LAST_PANIC.lock().map(|g| g.clone()).unwrap_or_default());
+            let at = LAST_PANIC.lock().map(|g| g.clone()).unwrap_or_default();
+            // a panic raised in the subject (or one of its dependencies) outside a guarded call - e.g. in a constructor
+            // while a check was being set up - is a finding about the subject, not a failure of the harness
+            let in_harness = at.contains("at src/") || at.starts_with("src/") || at.is_empty();
+            if !in_harness {
+                let id: &'static str = Box::leak(ctx.id.clone().into_boxed_str());
+                let mut rep = Report::new();
+                rep.rule.push("the check ended early: the subject panicked while the check was being set up".into());
+                rep.exhaustive = false;
+                rep.violation(Violation { prop: id, class: "panic".into(), detail: format!("the real code panicked outside a guarded call ({}): {}", at, panic_msg(&e)), machine: "none", config: serde_json::json!({}), ops: vec!["# raised while the check was constructing or driving the subject; rerun the check to reproduce".into()] });
+                let out = finish(&ctx, rep, "the check ended early on a panic of the subject");
+                std::process::exit(out.exit);
+            }
+            eprintln!("MACHINERY: the harness itself panicked: {} ({})", panic_msg(&e), at);
             std::process::exit(2);
         }
     }
